@@ -20,7 +20,7 @@ for d in $(ls -d seeded/C??-* | sort -V); do
   sites=$(echo "$res" | grep -E "^VIOLATION" | sed -E 's/.*clause=([^ ]+) site=([^ ]+) .*/\1 \2/' | sort -u | head -3 | tr '\n' ';' | sed 's/;$//; s/;/; /g')
   expected="$(python3 -c "import json;print(json.load(open('$d/meta.json')).get('expected',''))")"
   if [ "$code" != "1" ]; then
-    if [ "$expected" = "not caught" ]; then sites="not caught — recorded as out of reach (DESIGN §10)"; else miss=$((miss+1)); fi
+    if [ "$expected" = "not caught" ]; then sites="not caught — recorded as expected (reason in its meta.json, DESIGN §10 / §12.6)"; else miss=$((miss+1)); fi
   elif [ "$expected" = "not caught" ]; then sites="$sites (was recorded as out of reach!)"; fi
   echo "| $(basename $d) | ${code:-?} | ${sites:-none} |" >> $OUT.tmp
   echo "$(basename $d) exit=${code:-?} $sites"
